@@ -22,13 +22,15 @@ Qed.
 Print Assumptions failed_setup_changes_nothing.
 
 (* nested form: when a dependency fails (not found, or an exception below it) and the table goes on
-   (optional dependency, or unsetup mode), the rest of the table is executed from the environment as it was
-   before the dependency was attempted (popStack of the saved environment) *)
+   (optional dependency, or unsetup mode), the rest of the table is executed from the state - environment AND
+   aliases - as it was before the dependency was attempted (popStack of the saved environment; the aliases are
+   restored since the fix proposed_fixes/C02-failed-dependency-restores-aliases, see
+   alias_residue_refuted_pinned at the end of this file for the behaviour before it) *)
 Theorem dependency_failure_restores cfg rec fwd depth just o m j acts st ds st' ds' :
   cut_off cfg just (S depth) = false -> fwd && negb o = false ->
   (rec st ds m fwd (S depth) j = RDone false st' ds' \/ rec st ds m fwd (S depth) j = RRaise st' ds') ->
   run_actions cfg rec fwd depth just (ASetup o m j :: acts) st ds =
-  run_actions cfg rec fwd depth just acts (with_env st' (s_env st)) ds'.
+  run_actions cfg rec fwd depth just acts st ds'.
 Proof.
   intros Hc Ho [E|E]; cbn [run_actions]; rewrite Hc, E, Ho; reflexivity.
 Qed.
@@ -38,7 +40,7 @@ Print Assumptions dependency_failure_restores.
 Theorem required_failure_propagates cfg rec depth just m j acts st ds st' ds' :
   cut_off cfg just (S depth) = false ->
   (rec st ds m true (S depth) j = RDone false st' ds' \/ rec st ds m true (S depth) j = RRaise st' ds') ->
-  run_actions cfg rec true depth just (ASetup false m j :: acts) st ds = RRaise (with_env st' (s_env st)) ds'.
+  run_actions cfg rec true depth just (ASetup false m j :: acts) st ds = RRaise st ds'.
 Proof.
   intros Hc [E|E]; cbn [run_actions]; rewrite Hc, E; reflexivity.
 Qed.
@@ -158,3 +160,162 @@ Proof.
   apply C. split; [assumption|reflexivity].
 Qed.
 Print Assumptions c02_hypotheses_inhabited.
+
+(* ================================================================================================
+   The inverse clause in full, on the composed model (Model/SetupFull.v: Model/Setup.v + the resolver of C03, so
+   that the versions - of the setup AND of what the unsetup then finds recorded - are determined).
+
+     Starting from an environment in which none of a product's dependency closure is set up, setting the
+     product up and then unsetting it up restores every environment variable and alias to its prior state
+     (path-like variables compared as duplicate-free lists of non-empty elements, an unset variable equal to an
+     empty one).
+
+   Hypotheses: those of closure_exact (Props/C01.v): WF2, conflict_free D (no product requested in two versions),
+   no --max-depth / --just / -j line / keep in the VRO, a well-formed database view and a total order on the
+   version names; the start state is consistent (Inv) and
+     fresh_for fw top st   no variable that a product reachable from top owns (SETUP_N, N_DIR, N_DIR_EXTRA, the
+                           variables its tables set with envSet) is set, and no alias its tables define exists.
+   This is how "none of the closure is set up" has to be read for the statement to be true of the code: an envSet
+   variable that had a value before the setup is unset by the unsetup (finding D11, envset_preexisting_refuted
+   below), and the same holds for an alias.
+   Conclusion, for  setup top  that succeeds (state st1) followed by  unsetup top  (any VRO, any dictionary):
+     (a) no product reachable from top is recorded any more (the unsetup traversal reaches every product the setup
+         recorded: closure_exact says what is recorded in st1 and that each recorded product other than top is
+         named by a line of the table of a recorded one, Proofs/SetupUnwind.v does the traversal);
+     (b) every path variable holds the same duplicate-free list of elements as before (oldv reads an unset
+         variable as the empty one; elems drops empty elements);
+     (c) every other variable has the binding it had - the variables the reachable products own are all unset again
+         (Proofs/SetupOwn.v: such a variable only ever holds what a table or the bookkeeping of a recorded product
+         put there);
+     (d) every alias has the binding it had (this needs the fix of D36: popStack env restores the aliases too). *)
+From Eupsv Require Import Model.Resolve Model.ResolveSpec Model.SetupFull Proofs.SetupFull Proofs.SetupFullClosure
+     Proofs.SetupInverse Proofs.SetupFullExample Model.SetupPinned Generated.Config.
+From Eupsv Require Proofs.Resolve.
+
+Theorem unsetup_inverts_setup vcmp vmatch fw cfg rc flavors dl rank vro top li D
+        fuel fuel2 st st1 al1 tr1 al vro2 li2 ok2 st2 al2 tr2 :
+  WF2 (fw_products fw) dl rank -> c_max_depth cfg = None ->
+  wf_db (db_of cfg fw) = true -> (forall n, total_order_on vcmp (names_of (db_of cfg fw) n)) ->
+  mem_entry EKeep vro = false ->
+  conflict_free vcmp vmatch fw cfg rc flavors vro top li D ->
+  nodollar_paths (fw_products fw) (s_env st) -> Inv (fw_products fw) (s_env st) -> fresh_for fw top st ->
+  setup_full vcmp vmatch fw cfg rc flavors fuel st [] vro top li true 0 false = FDone true st1 al1 tr1 ->
+  setup_full vcmp vmatch fw cfg rc flavors fuel2 st1 al vro2 top li2 false 0 false = FDone ok2 st2 al2 tr2 ->
+  (forall n, reachN fw top n -> find_setup_product (fw_products fw) (s_env st2) n = None) /\
+  (forall var, path_var (fw_products fw) var ->
+     uniq (elems (dl var) (oldv var (s_env st2))) = uniq (elems (dl var) (oldv var (s_env st)))) /\
+  (forall k, ~ path_var (fw_products fw) k -> alookup k (s_env st2) = alookup k (s_env st)) /\
+  (forall k, alookup k (s_aliases st2) = alookup k (s_aliases st)).
+Proof.
+  intros H Hd Hw Ht Hk CF Hnd HI HF E1 E2.
+  exact (inverse_lemma vcmp vmatch fw cfg rc flavors dl rank vro top D H Hd Hw Ht Hk fuel fuel2 st li st1 al1 tr1 al vro2 li2
+           ok2 st2 al2 tr2 CF Hnd HI HF E1 E2).
+Qed.
+Print Assumptions unsetup_inverts_setup.
+
+(* for two whole commands, each in a fresh Eups: setup top [version], then unsetup top *)
+Corollary unsetup_inverts_setup_request vcmp vmatch fw cfg rc flavors dl rank vro top version D fuel fuel2 st st1 tr1 st2 tr2 :
+  WF2 (fw_products fw) dl rank -> c_max_depth cfg = None ->
+  wf_db (db_of cfg fw) = true -> (forall n, total_order_on vcmp (names_of (db_of cfg fw) n)) ->
+  select_vro rc (request_opts cfg version) = Ok vro -> mem_entry EKeep vro = false ->
+  conflict_free vcmp vmatch fw cfg rc flavors vro top {| li_version := version; li_expr := None |} D ->
+  nodollar_paths (fw_products fw) (s_env st) -> Inv (fw_products fw) (s_env st) -> fresh_for fw top st ->
+  request_full vcmp vmatch fw cfg rc flavors fuel st top version true false = Ok (Some st1, tr1) ->
+  request_full vcmp vmatch fw cfg rc flavors fuel2 st1 top None false false = Ok (Some st2, tr2) ->
+  (forall n, reachN fw top n -> find_setup_product (fw_products fw) (s_env st2) n = None) /\
+  (forall var, path_var (fw_products fw) var ->
+     uniq (elems (dl var) (oldv var (s_env st2))) = uniq (elems (dl var) (oldv var (s_env st)))) /\
+  (forall k, ~ path_var (fw_products fw) k -> alookup k (s_env st2) = alookup k (s_env st)) /\
+  (forall k, alookup k (s_aliases st2) = alookup k (s_aliases st)).
+Proof.
+  intros H Hd Hw Ht V Hk CF Hnd HI HF E1 E2. unfold request_full in E1, E2. rewrite V in E1.
+  destruct (setup_full vcmp vmatch fw cfg rc flavors fuel st [] vro top _ true 0 false)
+    as [[|] s1 a1 t1|s1 a1 t1|t1|t1] eqn:X1; try discriminate.
+  injection E1 as <- _.
+  destruct (select_vro rc (request_opts cfg None)) as [vro2|]; [|discriminate].
+  destruct (setup_full vcmp vmatch fw cfg rc flavors fuel2 s1 [] vro2 top _ false 0 false)
+    as [[|] s2 a2 t2|s2 a2 t2|t2|t2] eqn:X2; try discriminate.
+  injection E2 as <- _.
+  exact (unsetup_inverts_setup vcmp vmatch fw cfg rc flavors dl rank vro top _ D fuel fuel2 st s1 a1 t1 [] vro2 _ true s2 a2 t2
+           H Hd Hw Ht Hk CF Hnd HI HF X1 X2).
+Qed.
+Print Assumptions unsetup_inverts_setup_request.
+
+(* ---- inhabited: ex_fw (Proofs/SetupFullExample.v), setup libb then unsetup libb from the empty state; the
+   assignment is libb 1.0, base 2.0 (closure_exact_inhabited of Props/C01.v); every hypothesis holds, both
+   commands succeed, and the final state has no binding left but the two path variables, empty ---- *)
+Example unsetup_inverts_setup_inhabited :
+  WF2 (fw_products ex_fw) (dl_of ex_world) (rank_of ex_order) /\ c_max_depth ex_cfg = None /\
+  wf_db (db_of ex_cfg ex_fw) = true /\ (forall n, total_order_on vcmp_simple (names_of (db_of ex_cfg ex_fw) n)) /\
+  select_vro default_config (request_opts ex_cfg None) = Ok ex_vro /\ mem_entry EKeep ex_vro = false /\
+  conflict_free vcmp_simple vmatch_simple ex_fw ex_cfg default_config ex_flavors ex_vro (lit "libb") no_info ex_D /\
+  nodollar_paths ex_world (s_env ex_st0) /\ Inv ex_world (s_env ex_st0) /\ fresh_for ex_fw (lit "libb") ex_st0 /\
+  exists st1 tr1 tr2,
+    request_full_simple ex_fw ex_cfg default_config ex_flavors 20 ex_st0 (lit "libb") None true false = Ok (Some st1, tr1) /\
+    find_setup_product ex_world (s_env st1) (lit "base") = find_pv ex_world (lit "base") (lit "2.0") /\
+    request_full_simple ex_fw ex_cfg default_config ex_flavors 20 st1 (lit "libb") None false false = Ok (Some ex_after, tr2).
+Proof.
+  split; [apply wf2_check_sound; vm_compute; reflexivity|]. split; [reflexivity|]. split; [vm_compute; reflexivity|].
+  split; [apply total_order_all; apply Proofs.Resolve.total_orderb_sound; vm_compute; reflexivity|].
+  split; [reflexivity|]. split; [reflexivity|].
+  split.
+  { split; [vm_compute; reflexivity|]. intros n v p _ Dn F. unfold ex_D in Dn.
+    destruct (str_eqb_spec n (lit "libb")) as [->|N1].
+    - injection Dn as <-. vm_compute in F. injection F as <-.
+      split; [split; [reflexivity|vm_compute; reflexivity]|]. cbn. tauto.
+    - destruct (str_eqb_spec n (lit "base")) as [->|N2]; [|discriminate].
+      injection Dn as <-. vm_compute in F. injection F as <-. cbn. tauto. }
+  split; [apply nodollar_nil|]. split; [apply Inv_nil|]. split; [split; intros; reflexivity|].
+  eexists. eexists. eexists. split; [vm_compute; reflexivity|]. split; vm_compute; reflexivity.
+Qed.
+Print Assumptions unsetup_inverts_setup_inhabited.
+
+(* ---- finding D11 (open): outside fresh_for the statement is false ----
+   BASE_HOME holds a value before the setup; base 1.0 sets it with envSet; the unsetup unsets it (execute_envSet
+   in unsetup mode): after setup base + unsetup base the variable is gone, not restored.  Everything else is as
+   the theorem says (the path variables are back to the empty list, nothing is recorded). *)
+Definition d11_st0 : state := {| s_env := [(lit "BASE_HOME", lit "preexisting")]; s_aliases := [] |}.
+
+Example envset_preexisting_refuted :
+  exists st1 tr1 st2 tr2,
+    request_full_simple ex_fw ex_cfg default_config ex_flavors 20 d11_st0 (lit "base") (Some (lit "1.0")) true false
+      = Ok (Some st1, tr1) /\
+    request_full_simple ex_fw ex_cfg default_config ex_flavors 20 st1 (lit "base") None false false = Ok (Some st2, tr2) /\
+    alookup (lit "BASE_HOME") (s_env d11_st0) = Some (lit "preexisting") /\
+    alookup (lit "BASE_HOME") (s_env st1) = Some (lit "/s/base/1.0") /\
+    alookup (lit "BASE_HOME") (s_env st2) = None /\
+    ~ fresh_for ex_fw (lit "base") d11_st0.
+Proof.
+  eexists. eexists. eexists. eexists.
+  split; [vm_compute; reflexivity|]. split; [vm_compute; reflexivity|]. split; [reflexivity|].
+  split; [vm_compute; reflexivity|]. split; [vm_compute; reflexivity|].
+  intros [FV _].
+  assert (O : own_var (fw_products ex_fw) (lit "base") (lit "BASE_HOME")).
+  { right. right. right. exists (ex_base "1.0"), (lit "/s/base/1.0"). split; [split; [now left|reflexivity]|].
+    cbn. tauto. }
+  pose proof (FV (lit "base") (lit "BASE_HOME") (t_self _ None (lit "base")) O) as E. discriminate E.
+Qed.
+Print Assumptions envset_preexisting_refuted.
+
+(* ---- finding D36 (fixed): what clause (d) and dependency_failure_restores were before the fix ----
+   ax_world (Proofs/SetupFullExample.v): t has setupOptional(x); the table of x defines the alias run_x and then
+   requires a product that does not exist.  setup t succeeds, x is not set up.  Model/SetupPinned.v (popStack env
+   restores the environment only) leaves run_x defined in the state the command ends with - and no unsetup of t
+   removes it; Model/Setup.v (the repaired code) ends without it. *)
+Example alias_residue_refuted_pinned :
+  WF2 ax_world (dl_of ax_world) (rank_of ax_order) /\
+  (exists st' , setup_pinned ax_world ex_cfg 10 ex_st0 ax_ds (lit "t") true 0 false = RDone true st' [] /\
+                find_setup_product ax_world (s_env st') (lit "x") = None /\
+                alookup (lit "run_x") (s_aliases st') = Some (lit "echo x") /\
+                exists st'', setup_pinned ax_world ex_cfg 10 st' [] (lit "t") false 0 false = RDone true st'' [] /\
+                             alookup (lit "run_x") (s_aliases st'') = Some (lit "echo x")) /\
+  (exists st', setup ax_world ex_cfg 10 ex_st0 ax_ds (lit "t") true 0 false = RDone true st' [] /\
+               find_setup_product ax_world (s_env st') (lit "x") = None /\
+               alookup (lit "run_x") (s_aliases st') = None).
+Proof.
+  split; [apply wf2_check_sound; vm_compute; reflexivity|]. split.
+  - eexists. split; [vm_compute; reflexivity|]. split; [vm_compute; reflexivity|]. split; [vm_compute; reflexivity|].
+    eexists. split; vm_compute; reflexivity.
+  - eexists. split; [vm_compute; reflexivity|]. split; vm_compute; reflexivity.
+Qed.
+Print Assumptions alias_residue_refuted_pinned.
